@@ -283,6 +283,12 @@ def plan(chk):
         n += 1
         big = [rng.choice([65, 100, 127, 128, 129, 255, 256, 257, 511, 512, 513, 600, rng.randint(65, 600)]) for _ in range(6 if chk.thorough else 3)]
         specs.append(dict(case="accept", coin=coin, seed=chk.seed, chain="big-%d" % ci, n=n, txcounts=big))
+    # "for any transaction count": thousands of txs per block, counts on both sides of 2^10, 2^11, 2^12 and odd counts at deep levels
+    huge = [1023, 1025, 1300, 1536, 1537, 2047, 2049, 2500, 4095, 4097]
+    for ci in range(6 if chk.thorough else 2):
+        n += 1
+        cnts = rng.sample(huge, 5) + [rng.randint(1025, 6000 if chk.thorough else 3000)]
+        specs.append(dict(case="accept", coin=COIN_NAMES[(chk.seed + ci * 3) % 8], seed=chk.seed, chain="huge-%d" % ci, n=n, txcounts=cnts))
     for ci, coin in enumerate(COIN_NAMES if chk.thorough else COIN_NAMES[::3]):
         n += 1
         specs.append(dict(case="accept", coin=coin, seed=chk.seed, chain="rich-%d" % ci, n=n, txcounts=[2, 1, 3], rich=True))
